@@ -1,4 +1,5 @@
 mod cache;
+mod chan;
 mod compat;
 mod replay;
 mod scen;
@@ -38,6 +39,27 @@ fn main() {
                         )
                         .unwrap();
                         replay::replay_ops(ops.as_array().unwrap(), &make)
+                    }
+                }
+                "Channels" | "StatusWait" => {
+                    let is_chan = module == "Channels";
+                    let cfgc = cfg.clone();
+                    if is_chan {
+                        let make = || chan::ChanModel::new(&cfgc);
+                        if args[1] == "replay" {
+                            replay::replay_graph(&arg(&args, "--edges").expect("--edges"), &make, maxdiv).json
+                        } else {
+                            let ops: Value = serde_json::from_str(&std::fs::read_to_string(arg(&args, "--ops").expect("--ops")).unwrap()).unwrap();
+                            replay::replay_ops(ops.as_array().unwrap(), &make)
+                        }
+                    } else {
+                        let make = || chan::CondModel::new(&cfgc);
+                        if args[1] == "replay" {
+                            replay::replay_graph(&arg(&args, "--edges").expect("--edges"), &make, maxdiv).json
+                        } else {
+                            let ops: Value = serde_json::from_str(&std::fs::read_to_string(arg(&args, "--ops").expect("--ops")).unwrap()).unwrap();
+                            replay::replay_ops(ops.as_array().unwrap(), &make)
+                        }
                     }
                 }
                 other => {
